@@ -381,6 +381,9 @@ def _file_history(rng, names):
     absent = _absent_queries(rng, names, 3) or [b'absent']
     ops = []
     def q():
+        prev = [o[1] for o in ops if o[0] == 'byname']
+        if prev and rng.random() < 0.3:
+            return rng.choice(prev)
         return names[rng.randrange(n)] if rng.random() < 0.7 else rng.choice(absent)
     for _ in range(rng.randint(4, 16)):
         r = rng.random()
@@ -430,7 +433,10 @@ def _history(rng, names):
             k = rng.choice([0, 1, 1, 2, rng.randint(0, n), rng.randint(0, n), max(n - 1, 0), n, n + 1])
             ops.append(['iter', k, rng.randrange(3)])
         elif r < 0.78:
-            if names and rng.random() < 0.75:
+            prev = [o[1] for o in ops if o[0] == 'byname']
+            if prev and rng.random() < 0.3:
+                q = rng.choice(prev)                         # the same name again (its earlier result was consumed by the caller)
+            elif names and rng.random() < 0.75:
                 q = names[rng.choice([n - 1, rng.randrange(n), rng.randrange(n)])]
             else:
                 q = rng.choice(absent) if absent else b'absent'
@@ -464,6 +470,17 @@ def corpus(ctx):
         for is64 in (1, 0):
             out.append(('symhist', [le, is64, 62, 0, 0, 11, hs, 0,
                                     [['iter', 1, 0], ['byname', b'dup'], ['byname', b''], ['byname', b'alpha'], ['byname', b'zz']]]))
+    # names of 65535 / 65536 / 70001 bytes (the format has no limit; readers work in 64-byte chunks)
+    def big(k, c):
+        return bytes((c + 7 * i) % 94 + 33 for i in range(k))
+    for le, is64, nm_a, nm_b in ((1, 1, big(65536, 1), b'short'), (0, 0, big(70001, 2), big(65535, 3))):
+        sb = [s(b'', 0), s(nm_a, 0x10), s(nm_b, 0x20)]
+        cm = [le, is64, 62, 0, 0, 23, sb]
+        qs = [nm_a, nm_b, nm_a[:-1], b'', nm_a + b'x']
+        out.append(('symtab', cm + [qs, 0, [1, 2, 3], 0, [[1, 2], [3, 4], [5, 6]]]))
+        out.append(('sysv', cm + [qs, [2, 0]]))
+        # (no GNU-hash case: the model's gnu_hash mirrors the code's UNBOUNDED h*33+c and is quadratic in the name length once
+        #  extracted; the GNU walk compares names exactly as the SysV walk does)
     # versioned spellings: memcpy@@GLIBC_2.14 does not bear the name memcpy (with and without a bare twin)
     vs_ = [s(b'', 0), s(b'memcpy@@GLIBC_2.14', 0x10), s(b'x@y', 0x20), s(b'x', 0x30), s(b'a@b@c', 0x40), s(b'tail@', 0x50), s(b'@plt', 0x60)]
     for le in (1, 0):
@@ -634,6 +651,41 @@ def _call(f):
 
 def _ok(v):
     return ['ok', v]
+
+
+_SCRAMBLES = [0]
+
+
+def _scramble_sym(sym):
+    """the caller owns what it was given: edit a returned Symbol in place"""
+    try:
+        sym.entry['st_value'] = 0x5a5a5a5a
+        sym.entry['st_info']['bind'] = 'scrambled'
+        sym.name = '\x01scrambled'
+    except Exception:   # noqa
+        pass
+
+
+def _by_name_obs(symsec, q, ENUMS):
+    """get_symbol_by_name(q) observed, and then the returned list CONSUMED / edited in place by its owner (work-list style:
+    entries edited, then pop / clear / reverse+append / sort-like reorder): a later lookup must not be affected"""
+    r = symsec.get_symbol_by_name(q)
+    obs = 'none' if r is None else ['some', [_view(s_, ENUMS) for s_ in r]]
+    if isinstance(r, list):
+        for s_ in r:
+            _scramble_sym(s_)
+        _SCRAMBLES[0] += 1
+        how = _SCRAMBLES[0] % 4
+        if how == 0:
+            del r[:]
+        elif how == 1:
+            r.pop()
+        elif how == 2:
+            r.reverse()
+            r.append(None)
+        else:
+            r[:] = r[:1] * 3
+    return _ok(obs)
 
 
 class _Failed:
@@ -828,12 +880,14 @@ def _eval_table(ctx, kind, a, ENUMS):
                                              ['m_shndx', img, le, [offs_sec[2], len(xb), 4 + xextra], list(range(n))]])
         impl = [_call(symsec.num_symbols),
                 _call(lambda: _ok([_view(s, ENUMS) for s in symsec.iter_symbols()])),
-                [_call(lambda: _ok((lambda r: 'none' if r is None else ['some', [_view(s, ENUMS) for s in r]])(
-                    symsec.get_symbol_by_name(q)))) for q in qstr],
-                [_call(lambda: _ok(xsec.get_section_index(i))) for i in range(n)]]
-        spec = [n, _ok(views), [_ok(x) for x in byspec], [_ok(v) for v in xvals]]
-        model = [m_num, m_iter, m_by, m_x]
-        parts = ['symtab-num-symbols', 'symtab-enumeration', 'symtab-by-name', 'symtab-shndx']
+                [_call(lambda: _by_name_obs(symsec, q, ENUMS)) for q in qstr],
+                [_call(lambda: _ok(xsec.get_section_index(i))) for i in range(n)],
+                # every name once more, after the caller consumed / edited the lists it was given
+                [_call(lambda: _by_name_obs(symsec, q, ENUMS)) for q in qstr]]
+        spec = [n, _ok(views), [_ok(x) for x in byspec], [_ok(v) for v in xvals], [_ok(x) for x in byspec]]
+        model = [m_num, m_iter, m_by, m_x, m_by]
+        parts = ['symtab-num-symbols', 'symtab-enumeration', 'symtab-by-name', 'symtab-shndx',
+                 'symtab-by-name-after-caller-mutated-result']
         if has_info:
             isec = _section(elf, 4)
             m_i = drv.one(['m_syminfo', img, cfg, [offs_sec[3], len(ib), 4 + iextra]])
@@ -1003,8 +1057,7 @@ def _eval_file(ctx, kind, a, ENUMS):
     symsec = _section(elf, dynsym['index'])
     qstr = [q.decode('utf-8') for q in queries]
     impl = [_call(lambda: _ok([_view(s, ENUMS) for s in symsec.iter_symbols()])),
-            [_call(lambda: _ok((lambda r: 'none' if r is None else ['some', [_view(s, ENUMS) for s in r]])(
-                symsec.get_symbol_by_name(q)))) for q in qstr]]
+            [_call(lambda: _by_name_obs(symsec, q, ENUMS)) for q in qstr]]
     spec = [_ok(views), [_ok(x) for x in byspec]]
     model = [m_iter, m_by]
     for sec, lo, m, pres in ((hsec, 1, m_s, ps), (gsec, so, m_g, pg)):
@@ -1083,8 +1136,7 @@ def _eval_hist(ctx, kind, a, ENUMS):
             stops.append('0' if o[1] == 0 else ('past-end' if o[1] > n else ('all' if o[1] == n else 'mid')))
         else:
             q = o[1].decode('utf-8', errors='replace')
-            impl.append(_call(lambda: _ok((lambda r: 'none' if r is None else ['some', [_view(s_, ENUMS) for s_ in r]])(
-                symsec.get_symbol_by_name(q)))))
+            impl.append(_call(lambda: _by_name_obs(symsec, q, ENUMS)))
     spec = list(answers)
     ctx.bump('kind', kind)
     ctx.bump('hist_len', len(ops) if len(ops) < 6 else '6+')
@@ -1189,8 +1241,7 @@ def _eval_filehist(ctx, kind, a, ENUMS):
             elif t == 'get':
                 got = _call(lambda: _ok(_view(symsec.get_symbol(o[1]), ENUMS)))
             elif t == 'byname':
-                got = _call(lambda: _ok((lambda r: 'none' if r is None else ['some', [_view(s_, ENUMS) for s_ in r]])(
-                    symsec.get_symbol_by_name(o[1].decode('utf-8', errors='replace')))))
+                got = _call(lambda: _by_name_obs(symsec, o[1].decode('utf-8', errors='replace'), ENUMS))
             elif t == 'iter':
                 def run_iter():
                     g = symsec.iter_symbols()
